@@ -889,6 +889,125 @@ Proof.
   - rewrite S. destruct (gc_out c) as [q| |]; split; intro H; try discriminate; reflexivity.
 Qed.
 
+(* ================================================================== *)
+(* soundness of the executable redemption property                      *)
+(* ================================================================== *)
+Lemma memN_In x l : memN x l = true <-> In x l.
+Proof.
+  unfold memN. rewrite existsb_exists. split.
+  - intros [y [Hy He]]. apply N.eqb_eq in He. subst; exact Hy.
+  - intro H. exists x. split; [exact H|apply N.eqb_refl].
+Qed.
+Lemma nodupb_NoDup l : nodupb l = true -> NoDup l.
+Proof.
+  induction l as [|x t IH]; cbn [nodupb]; intro H; [constructor|].
+  apply andb_true_iff in H. destruct H as [H1 H2]. constructor; [|apply IH; exact H2].
+  intro Hin. apply memN_In in Hin. rewrite Hin in H1. discriminate.
+Qed.
+Lemma sortedb_sorted l : sortedb l = true -> StronglySorted Z.le l.
+Proof.
+  induction l as [|a t IH]; intro H; [constructor|].
+  destruct t as [|b t']; [constructor; constructor|].
+  cbn [sortedb] in H. apply andb_true_iff in H. destruct H as [H1 H2].
+  specialize (IH H2). constructor; [exact IH|].
+  inversion IH as [|b' t'' Hs Hall]; subst. constructor; [lia|].
+  rewrite Forall_forall in *. intros z Hz. specialize (Hall z Hz). lia.
+Qed.
+Lemma sorted_le_last l d : StronglySorted Z.le l -> forall x, In x l -> x <= last l d.
+Proof.
+  induction 1 as [|a t Hs IH Hall]; intros x Hx; [destruct Hx|].
+  destruct t as [|b t'].
+  - cbn [last]. destruct Hx as [<-|[]]. lia.
+  - change (last (a :: b :: t') d) with (last (b :: t') d). destruct Hx as [<-|Hx].
+    + rewrite Forall_forall in Hall.
+      assert (Hb : b <= last (b :: t') d) by (apply IH; left; reflexivity).
+      specialize (Hall b (or_introl eq_refl)). lia.
+    + apply IH; exact Hx.
+Qed.
+Lemma length_filter_map_some {A B} (f : A -> option B) (l : list A) :
+  length (filter_map f l) = length (filter (fun x => match f x with Some _ => true | None => false end) l).
+Proof.
+  induction l as [|x t IH]; cbn [filter_map filter]; [reflexivity|].
+  destruct (f x); cbn [length]; lia.
+Qed.
+
+(* the property of a selected script list [l], in components *)
+Definition red_prop (pending : N * N -> red_look) (delay : N * N -> option Z)
+           (now tmo ma : Z) (entries : list red_event) (cap : Z) (l : list N) : Prop :=
+  NoDup l /\
+  exists times : list Z,
+    Forall2 (fun s t => exists e, In e entries /\ re_script e = s /\
+                                  red_eligible pending delay now tmo ma e = Some t) l times /\
+    StronglySorted Z.le times /\
+    ((forall e, In e entries -> delay (re_wallet e, re_script e) <> None) ->
+     len l = Z.min cap (len (filter (fun e => match red_eligible pending delay now tmo ma e with
+                                              | Some _ => true | None => false end) entries)) /\
+     forall e t, In e entries -> red_eligible pending delay now tmo ma e = Some t ->
+                 In (re_script e) l \/ forall t', In t' times -> t' <= t).
+
+Theorem red_spec_ok_sound c l :
+  red_spec_ok c = true -> rc_out c = RedOk l ->
+  rc_wallet c <> 0%N /\ rc_abt c <> 0 /\
+  exists cur ma tmo evs set,
+    rc_current c = Some cur /\ rc_min_age c = Some ma /\ rc_timeout c = Some tmo /\
+    rc_events c = Some evs /\
+    build_set (red_sorted (rc_wallet c) cur tmo (rc_abt c) evs) [] = Some set /\
+    red_prop (rc_pend c) (rc_del c) (rc_now c) tmo ma (map snd set)
+             (red_cap (rc_pend c) (rc_limit c) set) l.
+Proof.
+  unfold red_spec_ok. intros H Ho. rewrite Ho in H.
+  destruct (rc_current c) as [cur|]; [|discriminate].
+  destruct (rc_min_age c) as [ma|]; [|discriminate].
+  destruct (rc_timeout c) as [tmo|]; [|discriminate].
+  destruct (rc_events c) as [evs|]; [|discriminate].
+  apply andb_true_iff in H. destruct H as [H H3]. apply andb_true_iff in H. destruct H as [H1 H2].
+  apply negb_true_iff, N.eqb_neq in H1. apply negb_true_iff in H2.
+  split; [exact H1|]. split; [lia|].
+  fold (red_sorted (rc_wallet c) cur tmo (rc_abt c) evs) in H3.
+  destruct (build_set (red_sorted (rc_wallet c) cur tmo (rc_abt c) evs) []) as [set|] eqn:Eb; [|discriminate].
+  exists cur, ma, tmo, evs, set. do 4 (split; [reflexivity|]). split; [exact Eb|].
+  set (entries := map snd set) in *.
+  set (elig := filter_map (fun e => match red_eligible (rc_pend c) (rc_del c) (rc_now c) tmo ma e with
+                                    | Some t => Some (re_script e, t) | None => None end) entries) in *.
+  fold (red_cap (rc_pend c) (rc_limit c) set) in H3.
+  set (cap := red_cap (rc_pend c) (rc_limit c) set) in *.
+  apply andb_true_iff in H3. destruct H3 as [H3 He]. apply andb_true_iff in H3. destruct H3 as [H3 Hs].
+  apply andb_true_iff in H3. destruct H3 as [Hnd Hall].
+  assert (Helig : forall s t, In (s, t) elig ->
+            exists e, In e entries /\ re_script e = s /\
+                      red_eligible (rc_pend c) (rc_del c) (rc_now c) tmo ma e = Some t).
+  { intros s t Hin. apply filter_map_In in Hin. destruct Hin as [e [Hin Hf]].
+    destruct (red_eligible (rc_pend c) (rc_del c) (rc_now c) tmo ma e) as [t'|] eqn:E; [|discriminate].
+    inversion Hf; subst. exists e. repeat split; assumption. }
+  split; [apply nodupb_NoDup; exact Hnd|].
+  exists (filter_map (fun s => assoc N.eqb s elig) l). split; [|split].
+  - clear -Hall Helig. induction l as [|s t IH]; cbn [filter_map]; [constructor|].
+    cbn [forallb] in Hall. apply andb_true_iff in Hall. destruct Hall as [Hs Ht].
+    destruct (assoc N.eqb s elig) as [tm|] eqn:Ea; [|discriminate].
+    constructor; [apply Helig; apply assoc_in; exact Ea|apply IH; exact Ht].
+  - apply sortedb_sorted. exact Hs.
+  - intro Hclean.
+    assert (Hc : forallb (fun e => match rc_del c (re_wallet e, re_script e) with
+                                   | Some _ => true | None => false end) entries = true).
+    { apply forallb_forall. intros e Hin. specialize (Hclean e Hin).
+      destruct (rc_del c (re_wallet e, re_script e)); [reflexivity|congruence]. }
+    rewrite Hc in He. cbn [negb orb] in He. apply andb_true_iff in He. destruct He as [Hlen Hrest].
+    split.
+    + assert (len elig = len (filter (fun e => match red_eligible (rc_pend c) (rc_del c) (rc_now c) tmo ma e with
+                                               | Some _ => true | None => false end) entries)) as <-.
+      { unfold len, elig. rewrite length_filter_map_some. f_equal. f_equal.
+        clear. induction entries as [|e t IH]; cbn [filter]; [reflexivity|].
+        destruct (red_eligible (rc_pend c) (rc_del c) (rc_now c) tmo ma e); rewrite IH; reflexivity. }
+      apply Z.eqb_eq in Hlen. exact Hlen.
+    + intros e t Hin Hel.
+      assert (Hin2 : In (re_script e, t) elig).
+      { apply filter_map_In. exists e. split; [exact Hin|]. rewrite Hel. reflexivity. }
+      rewrite forallb_forall in Hrest. specialize (Hrest _ Hin2). cbn [fst snd] in Hrest.
+      apply orb_true_iff in Hrest. destruct Hrest as [Hm|Hl]; [left; apply memN_In; exact Hm|].
+      right. intros t' Ht'. unfold last_or in Hl.
+      pose proof (sorted_le_last _ t (sortedb_sorted _ Hs) t' Ht'). lia.
+Qed.
+
 (* ------------------------------------------------------------------ *)
 (* hypotheses are satisfiable / the definitions compute                 *)
 (* ------------------------------------------------------------------ *)
